@@ -22,17 +22,20 @@ type uniOp struct {
 }
 
 type uniObs16 struct {
-	Ev  string  `json:"ev"`
-	Ops []uniOp `json:"ops,omitempty"`
-	Kn  int     `json:"kn"`
-	Kd  int     `json:"kd"`
-	Win []int   `json:"win,omitempty"`
-	Idx int     `json:"idx"`
-	Fs  []int   `json:"fs"` // sign class of Evaluate      (-1: < -1e-9, 1: > 1e-9, else 0)
-	Ss  []int   `json:"ss"` // sign class of EvaluateSlow
-	Eq  []int   `json:"eq"` // 1: the two float64 values are identical
-	Fv  []int64 `json:"fv"` // Evaluate in 1e-6 units (rounded)
-	Sv  []int64 `json:"sv"` // EvaluateSlow in 1e-6 units (rounded)
+	Ev       string     `json:"ev"`
+	Ops      []uniOp    `json:"ops,omitempty"`
+	Kn       int        `json:"kn"`
+	Kd       int        `json:"kd"`
+	Win      []int      `json:"win,omitempty"`
+	Idx      int        `json:"idx"`
+	Fs       []int      `json:"fs"`  // sign class of Evaluate      (-1: < -1e-9, 1: > 1e-9, else 0)
+	Ss       []int      `json:"ss"`  // sign class of EvaluateSlow
+	Eq       []int      `json:"eq"`  // 1: the two float64 values are identical
+	Eqr      []int      `json:"eqr"` // 1: EvaluateSlow is the minimum over the operands as they were passed (computed by the harness)
+	Un       []int      `json:"un"`  // 1: the operand holding that minimum reports LESS than the distance to its own bounding box
+	Fv       []int64    `json:"fv"`  // Evaluate in 1e-6 units (rounded)
+	Sv       []int64    `json:"sv"`  // EvaluateSlow in 1e-6 units (rounded)
+	operands []sdf.SDF2 // the operands as they were passed to Union2D (nil entries allowed)
 	// report only (stripped before validation)
 	Desc string      `json:"desc,omitempty"`
 	P    [][]float64 `json:"p,omitempty"`
@@ -88,13 +91,37 @@ func realUnion(ops []sdf.SDF2, k float64) *sdf.UnionSDF2 {
 func (o *uniObs16) measure(u *sdf.UnionSDF2, p v2.Vec) {
 	f := u.Evaluate(p)
 	s := u.EvaluateSlow(p)
-	eq := 0
+	eq, eqr, un := 0, 1, 0
 	if f == s {
 		eq = 1
+	}
+	if o.operands != nil && o.Kn == 0 {
+		// "what evaluating every operand returns", computed from the operands as they were passed
+		m, mi := math.Inf(1), -1
+		for i, x := range o.operands {
+			if x == nil {
+				continue
+			}
+			if d := x.Evaluate(p); d < m {
+				m, mi = d, i
+			}
+		}
+		if m != s {
+			eqr = 0
+		}
+		if mi >= 0 {
+			// does the operand that holds the minimum undercut the distance to its own box? (then no pruning by
+			// box distance can be exact: the recorded limitation, not a new defect)
+			if md := math.Sqrt(o.operands[mi].BoundingBox().MinMaxDist2(p)[0]); md > 0 && m < md*(1-1e-9)-1e-12 {
+				un = 1
+			}
+		}
 	}
 	o.Fs = append(o.Fs, signClass(f))
 	o.Ss = append(o.Ss, signClass(s))
 	o.Eq = append(o.Eq, eq)
+	o.Eqr = append(o.Eqr, eqr)
+	o.Un = append(o.Un, un)
 	o.Fv = append(o.Fv, c16Micro(f))
 	o.Sv = append(o.Sv, c16Micro(s))
 }
@@ -133,6 +160,7 @@ func uniObserve(v c16Vec) uniObs16 {
 		}
 	}
 	u := realUnion(ops, k)
+	o.operands = ops
 	for y := v.Win[1]; y <= v.Win[3]; y++ {
 		for x := v.Win[0]; x <= v.Win[2]; x++ {
 			o.measure(u, v2.Vec{X: float64(x), Y: float64(y)})
@@ -239,6 +267,38 @@ func c16URandom(args []string) error {
 		}
 		u := realUnion(ops, k)
 		o := uniObs16{Ev: "unir", Kn: kn, Kd: 1, Idx: idx, Desc: desc}
+		if idx%5 == 3 && len(ops) >= 3 {
+			// a union as an operand of a union; the inner one gets its blend AFTER the outer one was built (the
+			// outer union must keep referring to the operand it was given, not to a snapshot of its parts)
+			inner := sdf.Union2D(ops[0], ops[1])
+			rest := append([]sdf.SDF2{inner}, ops[2:]...)
+			u = realUnion(rest, 0)
+			kin := math.Pow(10, r.Float64()*1.3-1)
+			if iu, ok := inner.(*sdf.UnionSDF2); ok && r.Intn(3) > 0 {
+				iu.SetMin(sdf.PolyMin(kin))
+				o.Desc += fmt.Sprintf("nested(0,1) inner-blend-set-afterwards k=%s ", trimFloat(kin))
+			} else {
+				o.Desc += "nested(0,1) "
+			}
+			o.Kn, o.Kd = 0, 1
+			o.operands = rest
+		} else {
+			o.operands = ops
+		}
+		if idx%25 == 0 {
+			// a point inside one operand and just outside another one that is so small that the square of the
+			// distance underflows to zero
+			ops = []sdf.SDF2{sdf.Box2D(v2.Vec{X: 2e-170, Y: 2e-170}, 0), sdf.Box2D(v2.Vec{X: 2, Y: 2}, 0)}
+			u = realUnion(ops, 0)
+			o.Kn, o.operands = 0, ops
+			o.Desc = "box(2e-170 x 2e-170) box(2x2) at the origin "
+			for _, e := range []float64{1.5e-170, 2e-170, 1e-165, 1e-160, 1e-100} {
+				for _, p := range []v2.Vec{{X: e, Y: 0}, {X: 0, Y: -e}, {X: e, Y: e}} {
+					o.measure(u, p)
+					o.P = append(o.P, []float64{p.X, p.Y})
+				}
+			}
+		}
 		for j := 0; j < 80; j++ {
 			var p v2.Vec
 			if j%2 == 0 {
